@@ -4,3 +4,4 @@ import NutilsVerif.Props.C15
 import NutilsVerif.Props.C01
 import NutilsVerif.Props.Poly
 import NutilsVerif.Props.C01Driver
+import NutilsVerif.Props.C10
